@@ -135,17 +135,17 @@ Theorem deserialize_serialize : forall nodes, Forall wf_node nodes ->
 Proof. exact MerkleProofs.deserialize_serialize. Qed.
 Print Assumptions deserialize_serialize.
 
-(* the verdict of prove_patricia_merkle on ALL inputs, read from the root (chain_fn false = the order in which the code
-   spells a branch: link index, then the branch's own path) *)
+(* the verdict of prove_patricia_merkle on ALL inputs, read from the root (chain_fn: a branch spells its own path, then the
+   index of the link to its child, then what the child spells -- the tree format) *)
 Theorem patricia_verdict_def : forall key value path state_hash roots,
-  prove_patricia_merkle sha3_256 key value path state_hash roots = verdict_spec sha3_256 false key value path state_hash roots.
+  prove_patricia_merkle sha3_256 key value path state_hash roots = verdict_spec sha3_256 key value path state_hash roots.
 Proof. exact (MerkleProofs.patricia_verdict_def sha3_256). Qed.
 Print Assumptions patricia_verdict_def.
 
 Theorem patricia_positive_iff : forall key value path state_hash roots,
   prove_patricia_merkle sha3_256 key value path state_hash roots = Ok 1 <->
   state_hash = sha3_256 (concat roots) /\
-  exists front lp h, path = front ++ [LeafNode lp value] /\ chain_fn sha3_256 false path = COk h (nibbles_of key) /\ In h roots.
+  exists front lp h, path = front ++ [LeafNode lp value] /\ chain_fn sha3_256 path = COk h (nibbles_of key) /\ In h roots.
 Proof. exact (MerkleProofs.patricia_positive_iff sha3_256). Qed.
 Print Assumptions patricia_positive_iff.
 
@@ -153,22 +153,49 @@ Theorem patricia_negative_iff : forall key value path state_hash roots code, cod
   prove_patricia_merkle sha3_256 key value path state_hash roots = Ok code <->
   state_hash = sha3_256 (concat roots) /\
   exists front lp links h actual next_nibble link,
-    path = front ++ [BranchNode lp links] /\ chain_fn sha3_256 false path = COk h actual /\ In h roots /\
+    path = front ++ [BranchNode lp links] /\ chain_fn sha3_256 path = COk h actual /\ In h roots /\
     is_prefix actual (nibbles_of key) = true /\ nth_error (nibbles_of key) (length actual) = Some next_nibble /\
     py_get links next_nibble = Some link /\ (code = 2 <-> link = None).
 Proof. exact (MerkleProofs.patricia_negative_iff sha3_256). Qed.
 Print Assumptions patricia_negative_iff.
 
-(* FULL STATEMENT (not provable for the current code, see the counterexample below):
-     forall key value path state_hash roots,
-       prove_patricia_merkle sha3_256 key value path state_hash roots = verdict_spec sha3_256 true key value path state_hash roots
-   i.e. the verdict is the one the tree format implies, a branch spelling its own path BEFORE the index of the link to its
-   child.  Proved: the two agree whenever every node above the last one has an empty path. *)
-Theorem patricia_verdict_tree_order_partial : forall key value path state_hash roots,
-  inner_paths_empty path ->
-  prove_patricia_merkle sha3_256 key value path state_hash roots = verdict_spec sha3_256 true key value path state_hash roots.
-Proof. exact (MerkleProofs.patricia_verdict_tree_order_partial sha3_256). Qed.
-Print Assumptions patricia_verdict_tree_order_partial.
+(* THE VERDICT A TREE IMPLIES, for every proof cut from a tree along the key (branches with arbitrary, also non-empty,
+   paths; `follows` is that notion, see Sym/MerkleProofs.v): ending in a leaf it is POSITIVE when the leaf's path is the rest
+   of the key and its value the tested one, LEAF_VALUE_MISMATCH for another value, PATH_MISMATCH for another path; ending in a
+   branch it is NEGATIVE when the branch's path is followed in the key by a nibble without link, INCONCLUSIVE when that link
+   exists, PATH_MISMATCH when the key leaves the branch's path.  (Premise inside `follows`: the child's hash is not also
+   carried by an earlier link of the same branch -- list.index returns the first.) *)
+Theorem patricia_verdict_of_cut_proof : forall key value path roots above krest,
+  follows sha3_256 path (nibbles_of key)
+    (above ++ hex_path (node_path (last path (LeafNode {| pp_bytes := []; pp_size := 0 |} [])))) ->
+  nibbles_of key = above ++ krest ->
+  (forall first rest h, path = first :: rest -> node_hash sha3_256 first = Ok h -> In h roots) ->
+  prove_patricia_merkle sha3_256 key value path (sha3_256 (concat roots)) roots =
+  match last path (LeafNode {| pp_bytes := []; pp_size := 0 |} []) with
+  | LeafNode lp lv =>
+    if negb (bytes_eqb value lv) then Ok 0x8003
+    else Ok (if bytes_eqb (hex_path lp) krest then 0x0001 else 0x8005)
+  | BranchNode lp links =>
+    if negb (is_prefix (hex_path lp) krest) then Ok 0x8005
+    else match nth_error krest (length (hex_path lp)) with
+         | None => Crash index_error
+         | Some next_nibble =>
+           match py_get links next_nibble with
+           | None => Crash index_error
+           | Some (Some _) => Ok 0x4001
+           | Some None => Ok 0x0002
+           end
+         end
+  end.
+Proof. exact (MerkleProofs.patricia_verdict_of_cut_proof sha3_256). Qed.
+Print Assumptions patricia_verdict_of_cut_proof.
+
+(* every chain that follows a key splits the key that way: the consumed prefix `above` always exists *)
+Theorem cut_proof_splits_key : forall nodes key spelled, follows sha3_256 nodes key spelled ->
+  exists above krest, key = above ++ krest
+    /\ spelled = above ++ hex_path (node_path (last nodes (LeafNode {| pp_bytes := []; pp_size := 0 |} []))).
+Proof. exact (MerkleProofs.follows_prefix sha3_256). Qed.
+Print Assumptions cut_proof_splits_key.
 
 (* ---------------------------------------------------------------------------------------------------------------- *)
 (* non-vacuity *)
@@ -190,20 +217,32 @@ Example merkle_example_3 :
        (merkle_root_spec sha3_256 [ex_leaf 1; ex_leaf 2; ex_leaf 3]) = false.
 Proof. vm_compute. repeat split; reflexivity. Qed.
 
-(* COUNTEREXAMPLE to the full tree-order statement: a branch with the one-nibble path 5 whose link 7 leads to a leaf with
-   path AB holds the key 57AB.. in the tree format; the honest two-node proof for key bytes [0x57; 0xAB] gets PATH_MISMATCH
-   (0x8005) from the code, which spells the chain as 75AB *)
+(* regression of a repaired defect: a branch with the one-nibble path 5 whose link 7 leads to a leaf with path AB holds the
+   key 57AB; the honest two-node proof is POSITIVE for key bytes [0x57; 0xAB] (before the repair the code spelled the chain
+   75AB and answered PATH_MISMATCH), and it is an instance of `follows` *)
 Definition cx_value : bytes := repeat 17 32.
 Definition cx_leaf : node := LeafNode {| pp_bytes := [0xAB]; pp_size := 2 |} cx_value.
 Definition cx_leaf_hash : bytes := match node_hash sha3_256 cx_leaf with Ok h => h | _ => [] end.
-Definition cx_branch : node :=
-  BranchNode {| pp_bytes := [0x50]; pp_size := 1 |} (repeat None 7 ++ [Some cx_leaf_hash] ++ repeat None 8).
+Definition cx_branch_links : list (option bytes) := repeat None 7 ++ [Some cx_leaf_hash] ++ repeat None 8.
+Definition cx_branch : node := BranchNode {| pp_bytes := [0x50]; pp_size := 1 |} cx_branch_links.
 Definition cx_root : bytes := match node_hash sha3_256 cx_branch with Ok h => h | _ => [] end.
-Example tree_order_counterexample :
-  inner_paths_empty [cx_branch; cx_leaf] -> False.
-Proof. vm_compute. intros [E _]. discriminate E. Qed.
-Example tree_order_counterexample_verdicts :
-  prove_patricia_merkle sha3_256 [0x57; 0xAB] cx_value [cx_branch; cx_leaf] (sha3_256 cx_root) [cx_root] = Ok 0x8005
-  /\ verdict_spec sha3_256 true [0x57; 0xAB] cx_value [cx_branch; cx_leaf] (sha3_256 cx_root) [cx_root] = Ok 1
-  /\ prove_patricia_merkle sha3_256 [0x75; 0xAB] cx_value [cx_branch; cx_leaf] (sha3_256 cx_root) [cx_root] = Ok 1.
+Example branch_path_regression :
+  prove_patricia_merkle sha3_256 [0x57; 0xAB] cx_value [cx_branch; cx_leaf] (sha3_256 cx_root) [cx_root] = Ok 1
+  /\ prove_patricia_merkle sha3_256 [0x75; 0xAB] cx_value [cx_branch; cx_leaf] (sha3_256 cx_root) [cx_root] = Ok 0x8005
+  /\ prove_patricia_merkle sha3_256 [0x57; 0xAB] cx_value [cx_branch] (sha3_256 cx_root) [cx_root] = Ok 0x4001
+  /\ prove_patricia_merkle sha3_256 [0x53; 0xAB] cx_value [cx_branch] (sha3_256 cx_root) [cx_root] = Ok 2.
 Proof. vm_compute. repeat split; reflexivity. Qed.
+Example branch_path_follows :
+  follows sha3_256 [cx_branch; cx_leaf] (hex_path (node_path cx_branch) ++ 7 :: [10; 11])
+    (hex_path (node_path cx_branch) ++ 7 :: hex_path (node_path cx_leaf))
+  /\ hex_path (node_path cx_branch) ++ 7 :: [10; 11] = [5; 7; 10; 11] /\ hex_path (node_path cx_leaf) = [10; 11].
+Proof.
+  split; [|split; vm_compute; reflexivity].
+  unfold cx_branch. cbn [node_path].
+  apply (follows_step sha3_256 _ cx_branch_links cx_leaf [] 7 [10; 11] cx_root cx_leaf_hash).
+  - vm_compute. reflexivity.
+  - vm_compute. reflexivity.
+  - lia.
+  - vm_compute. reflexivity.
+  - apply (follows_last sha3_256 cx_leaf cx_leaf_hash). vm_compute. reflexivity.
+Qed.
